@@ -272,7 +272,8 @@ def borrow(ctx: Ctx, res: Result, tier: str, module_name: str, rules, as_rule: s
     pid = module_name.upper()
     memo = ctx._extra.setdefault("borrowed", {})
     stack = ctx._extra.setdefault("borrow_stack", [])
-    if not stack:
+    if res.pid not in stack:
+        # the borrower is being run (as the property asked for, or called directly by another check): it is on the chain
         stack.append(res.pid)
     if pid in stack:
         # mutual borrowing (A rests on B, B on A): the rules asked for are B's own, they do not depend on what B borrows
@@ -280,6 +281,7 @@ def borrow(ctx: Ctx, res: Result, tier: str, module_name: str, rules, as_rule: s
         return
     sub = memo.get(pid) or memo.get(pid + ":partial")
     if sub is None:
+        depth0 = len(stack)
         stack.append(pid)
         cut_before = ctx._extra.get("borrow_cut", False)
         ctx._extra["borrow_cut"] = False
@@ -291,7 +293,7 @@ def borrow(ctx: Ctx, res: Result, tier: str, module_name: str, rules, as_rule: s
                 _report.CURRENT = res
                 raise
         finally:
-            stack.pop()
+            del stack[depth0:]
             was_cut = ctx._extra.get("borrow_cut", False)
             ctx._extra["borrow_cut"] = cut_before or was_cut
         # a result computed while one of its own borrowings was cut is good for its own rules only: never reuse it as
